@@ -8,6 +8,7 @@ import (
 	"fmt"
 	"net/http/httptest"
 	"os"
+	"sort"
 	"strings"
 	"time"
 
@@ -16,6 +17,7 @@ import (
 	promParser "github.com/prometheus/prometheus/promql/parser"
 
 	"github.com/cloudflare/pint/internal/checks"
+	"github.com/cloudflare/pint/internal/discovery"
 	"github.com/cloudflare/pint/internal/promapi"
 	"github.com/cloudflare/pint/verifharness/hx"
 	"github.com/cloudflare/pint/verifharness/pipe"
@@ -38,6 +40,11 @@ type c16Case struct {
 	Comment    string      `json:"comment,omitempty"`
 	Ignore     string      `json:"ignore_metrics,omitempty"`
 	NoUptime   bool        `json:"uptime_metric_missing"`
+	Swapped    string      `json:"same_query_operands_swapped,omitempty"`
+	// the producing recording rule / the alerting rule behind an ALERTS selector is being removed on this branch
+	ProducerRemoved bool `json:"producer_is_removed,omitempty"`
+	AlertRule       string `json:"alerting_rule_named,omitempty"`
+	AlertRemoved    bool `json:"alerting_rule_is_removed,omitempty"`
 }
 
 const c16Lookback = time.Hour
@@ -58,6 +65,7 @@ func c16DB(cs c16Case, now time.Time) *promeval.DB {
 	if !cs.NoUptime {
 		add(map[string]string{"__name__": "up", "job": "prom"}, func(int) bool { return true })
 	}
+	add(map[string]string{"__name__": "ALERTS", "alertname": "Bar", "alertstate": "firing"}, func(int) bool { return true })
 	for _, m := range cs.Metrics {
 		switch m.Class {
 		case "present":
@@ -133,6 +141,9 @@ func c16Eval(r *hx.Run, cs c16Case) {
 	if cs.AlertNamed != "" {
 		fmt.Fprintf(&sb, "  - alert: %s\n    expr: up == 0\n", cs.AlertNamed)
 	}
+	if cs.AlertRule != "" {
+		fmt.Fprintf(&sb, "  - alert: %s\n    expr: up == 0\n", cs.AlertRule)
+	}
 	entries, perr := pipe.Entries("r.yml", []byte(sb.String()), pipe.Options{Strict: true})
 	if perr != "" || len(entries) == 0 || entries[0].Rule.Expr().SyntaxError != nil {
 		r.Count("unparsable")
@@ -146,13 +157,78 @@ func c16Eval(r *hx.Run, cs c16Case) {
 		panic(err)
 	}
 	ctx := context.WithValue(context.Background(), checks.SettingsKey(checks.SeriesCheckName), settings)
-	problems := checks.NewSeriesCheck(fg).Check(ctx, entries[0], entries)
+	for i := range entries {
+		if i == 0 {
+			continue
+		}
+		n := entries[i].Rule.Name()
+		if (cs.ProducerRemoved && entries[i].Rule.RecordingRule != nil && n == cs.Producer) || (cs.AlertRemoved && entries[i].Rule.AlertingRule != nil && n == cs.AlertRule) {
+			entries[i].State = discovery.Removed // pint ci hands removed rules to checks as entries of this state
+		}
+	}
+	var problems []checks.Problem
+	func() {
+		defer func() {
+			if p := recover(); p != nil {
+				r.Violate(hx.Violation{Class: "series-check-panics", Input: cs, Observed: fmt.Sprint(p)})
+				problems = nil
+			}
+		}()
+		problems = checks.NewSeriesCheck(fg).Check(ctx, entries[0], entries)
+	}()
+
+	// the verdict on a selector does not depend on where in the query it stands
+	// ... nor on matchers that select nothing away: foo{cluster=""} is foo when no series has that label
+	if cs.Swapped == "" && cs.Comment == "" && strings.Contains(cs.Expr, "cluster=") {
+		cs.Swapped = strings.NewReplacer(`{cluster=""}`, "", `cluster=~".*", `, "").Replace(cs.Expr)
+	}
+	if cs.Swapped != "" && cs.Comment == "" {
+		text := sb.String()
+		sw := strings.Replace(text, "expr: "+cs.Expr+"\n", "expr: "+cs.Swapped+"\n", 1)
+		if es2, perr2 := pipe.Entries("r.yml", []byte(sw), pipe.Options{Strict: true}); perr2 == "" && len(es2) == len(entries) {
+			for i := range es2 {
+				es2[i].State = entries[i].State
+			}
+			key := func(ps []checks.Problem) []string {
+				var o []string
+				for _, p := range ps {
+					m := ""
+					if len(p.Diagnostics) > 0 {
+						m = p.Diagnostics[0].Message
+					}
+					if strings.Contains(cs.Expr, "cluster=") {
+						m = "" // the messages quote the selector text, which differs
+					}
+					o = append(o, fmt.Sprintf("%s|%s|%s", p.Summary, p.Severity, m))
+				}
+				sort.Strings(o)
+				return o
+			}
+			p2 := checks.NewSeriesCheck(fg).Check(ctx, es2[0], es2)
+			r.Count("operand-swaps")
+			if a, b := key(problems), key(p2); fmt.Sprint(a) != fmt.Sprint(b) {
+				r.Violate(hx.Violation{Class: "verdict-depends-on-operand-order", Input: cs, Observed: map[string]any{cs.Expr: a, cs.Swapped: b},
+					Expected: "the same problems for two ways of writing the same query"})
+				return
+			}
+		}
+	}
 
 	// the selectors of the expression, with their positions
 	node, _ := promParser.ParseExpr(cs.Expr)
 	// selectors directly guarded by an `or vector(...)` fallback are pint's documented exemption
 	guarded := map[string]bool{}
+	unlessRHS := map[string]bool{}
 	promParser.Inspect(node, func(n promParser.Node, _ []promParser.Node) error {
+		if be, ok := n.(*promParser.BinaryExpr); ok && be.Op == promParser.LUNLESS {
+			// what stands right of `unless` only takes series away: pint does not judge it
+			promParser.Inspect(be.RHS, func(m promParser.Node, _ []promParser.Node) error {
+				if vs, ok := m.(*promParser.VectorSelector); ok {
+					unlessRHS[vs.String()] = true
+				}
+				return nil
+			})
+		}
 		if be, ok := n.(*promParser.BinaryExpr); ok && be.Op == promParser.LOR && strings.HasPrefix(be.RHS.String(), "vector(") {
 			promParser.Inspect(be.LHS, func(m promParser.Node, _ []promParser.Node) error {
 				if vs, ok := m.(*promParser.VectorSelector); ok {
@@ -189,7 +265,7 @@ func c16Eval(r *hx.Run, cs c16Case) {
 		var mine []checks.Problem
 		for _, p := range problems {
 			// "invalid comment" warnings (a disable/snooze comment that matches no selector) are about the comment
-			if len(p.Diagnostics) > 0 && p.Diagnostics[0].FirstColumn == int(vs.PosRange.Start)+1 && p.Summary == "query on nonexistent series" {
+			if len(p.Diagnostics) > 0 && p.Diagnostics[0].FirstColumn == int(vs.PosRange.Start)+1 && (p.Summary == "query on nonexistent series" || p.Summary == "unknown alert referenced") {
 				mine = append(mine, p)
 			}
 		}
@@ -202,6 +278,33 @@ func c16Eval(r *hx.Run, cs c16Case) {
 			}
 			return o
 		}
+		// ALERTS: the alert named by an equality matcher must be a rule of the checked set that is not being removed;
+		// any other matcher names no alert at all
+		if strings.HasPrefix(vs.Name, "ALERTS") {
+			named := ""
+			for _, lm := range vs.LabelMatchers {
+				if lm.Name == "alertname" && lm.Type == labels.MatchEqual {
+					named = lm.Value
+				}
+			}
+			unknown := false
+			var rest []checks.Problem
+			for _, p := range mine {
+				if p.Summary == "unknown alert referenced" {
+					unknown = true
+				} else {
+					rest = append(rest, p)
+				}
+			}
+			want := named != "" && !(cs.AlertRule == named && !cs.AlertRemoved) && cs.AlertNamed != named
+			r.Count(fmt.Sprintf("alerts-selector:unknown=%v", want))
+			if unknown != want && (cs.Comment == "" || !c16CommentExempts(cs.Comment, vs)) && !(want && (guarded[vs.String()] || unlessRHS[vs.String()])) {
+				r.Violate(hx.Violation{Class: "alerts-selector-verdict", Input: cs, Observed: map[string]any{"selector": vs.String(), "unknown_alert_reported": unknown},
+					Expected: map[string]any{"unknown_alert_reported": want, "why": "only alertname=\"X\" names an alert, and X must be an alerting rule of the checked set that is not being removed"}})
+				return
+			}
+			mine = rest
+		}
 		// (A) returns series now => never reported
 		if len(nowRes) > 0 && len(mine) > 0 {
 			r.Violate(hx.Violation{Class: "present-selector-reported", Input: cs, Observed: map[string]any{"selector": vs.String(), "series_now": len(nowRes), "problems": show()},
@@ -210,7 +313,7 @@ func c16Eval(r *hx.Run, cs c16Case) {
 		}
 		// (B) metric never there, nobody produces it, no exemption => Bug
 		never := classOf[vs.Name] == "never"
-		if never && !exempt && cs.Producer != vs.Name && (cs.Ignore == "" || !strings.HasPrefix(vs.Name, strings.TrimSuffix(cs.Ignore, ".*"))) {
+		if never && !exempt && (cs.Producer != vs.Name || cs.ProducerRemoved) && (cs.Ignore == "" || !strings.HasPrefix(vs.Name, strings.TrimSuffix(cs.Ignore, ".*"))) {
 			bug := false
 			for _, p := range mine {
 				if p.Summary == "query on nonexistent series" && p.Severity == checks.Bug {
@@ -237,7 +340,7 @@ func c16Eval(r *hx.Run, cs c16Case) {
 			snoozed := cs.Comment != "" && strings.Contains(cs.Comment, "snooze") && c16CommentExempts(cs.Comment, vs)
 			ignored := cs.Ignore != "" && strings.HasPrefix(vs.Name, strings.TrimSuffix(cs.Ignore, ".*"))
 			probe := map[string]any{"isAlerts": false, "disabled": disabled, "snoozed": snoozed, "instantErr": false, "instantCount": count,
-				"bareEmpty": false, "baseErr": false, "baseRanges": baseRanges, "producer": cs.Producer == vs.Name, "otherServers": true, "ignored": ignored}
+				"bareEmpty": false, "baseErr": false, "baseRanges": baseRanges, "producer": cs.Producer == vs.Name && !cs.ProducerRemoved, "otherServers": true, "ignored": ignored}
 			impl := "none"
 			for _, p := range mine {
 				if p.Summary == "query on nonexistent series" {
@@ -290,6 +393,16 @@ func runC16(r *hx.Run, replay string) {
 				return n + `{env=~"p|q"}`
 			case 4:
 				return n + `{job!="b"}`
+			}
+			switch rr.Intn(8) {
+			case 0:
+				return n + `{cluster=""}` // no series has a cluster label: these two select what the bare name selects
+			case 1:
+				return n + `{cluster=~".*", job=~"a|b|zzz"}`
+			case 2:
+				return `ALERTS{alertname!="Foo"}` // every alert but Foo: Bar is firing
+			case 3:
+				return `ALERTS{alertname="` + hx.Pick(rr, []string{"Bar", "Gone"}) + `"}`
 			default:
 				return n + `{job="nope"}`
 			}
@@ -302,7 +415,9 @@ func runC16(r *hx.Run, replay string) {
 		case 2:
 			cs.Expr = "rate(" + sel() + "[2m]) > 0"
 		case 3:
-			cs.Expr = sel() + " / " + sel()
+			a, b := sel(), sel()
+			cs.Expr = a + " / " + b
+			cs.Swapped = b + " / " + a
 		case 4:
 			cs.Expr = sel() + " > 0 and on(job) " + sel()
 		case 5:
@@ -317,12 +432,25 @@ func runC16(r *hx.Run, replay string) {
 		default:
 			cs.Expr = "(" + sel() + " or vector(0)) + on() group_left() " + sel()
 		}
-		if rr.Intn(6) == 0 {
+		if rr.Intn(4) == 0 {
 			cs.AlertNamed = hx.Pick(rr, names)
+		}
+		if strings.Contains(cs.Expr, `alertname="`) {
+			cs.AlertRule = hx.Pick(rr, []string{"Bar", "Gone", "Other"})
+			cs.AlertRemoved = rr.Intn(2) == 0
+		}
+		if rr.Intn(12) == 0 {
+			cs.Comment = "# pint rule/set promql/series(" + hx.Pick(rr, names) + " min-age 1d" // no closing parenthesis
 		}
 		switch rr.Intn(8) {
 		case 0:
 			cs.Producer = hx.Pick(rr, names)
+			for _, m := range cs.Metrics { // prefer a metric the query uses and the server never had
+				if m.Class == "never" && strings.Contains(cs.Expr, m.Name) {
+					cs.Producer = m.Name
+				}
+			}
+			cs.ProducerRemoved = rr.Intn(2) == 0
 		case 1:
 			cs.Comment = "# pint disable promql/series(" + hx.Pick(rr, names) + ")"
 		case 2:
